@@ -50,6 +50,14 @@ CHECKS = {
     note='Trusted: clang lowering (validated per run in each configuration), irsym, polynomial normaliser, z3. Assumptions: positive dt/damping/density/volume; couplings mutual and between non-static cells. Bounds: 3 cells x 4 nodes, <= 2 steps, 5 coupling patterns.',
     technique='symbolic execution of LLVM IR (per compile-time configuration) + z3 on normalised rational-function identities; native replay',
     design='3/C03'),
+ 'C08': dict(
+    level='other',
+    text=('Bounded checking of identities and cross-references over population histories: the real solver constructor and run_iteration (division pass with divide_cell replaced by its contract, refinement, contact model 1, '
+          'polarisation, forces, integrator, removal) run in irsym on row tissues of 2-4 cells for 3 iterations. Removal histories are enumerated (each cell, first iterations); which cells divide is decided by z3 through symbolic '
+          'division volumes. After every iteration an oracle checks index = list position, id uniqueness and no reuse, mutual couplings to live nodes, owner pointers, face-type index range; the memory monitors check every dereference.'),
+    note='Trusted: irsym incl. OpenMP/filesystem/writer stubs (listed in evidence), clang lowering validated on a whole run. Outside: the real divide_cell (C09), > 4 cells, > 3 iterations, contact models 0/2, configurations in which a whole face is coupled (polarisation writes of face-type indices).',
+    technique='symbolic execution of the whole iteration in LLVM IR with enumerated removal schedules and solver-decided division subsets; independent oracle + memory monitors; native replay',
+    design='3/C08'),
  'C10': dict(
     level='other',
     text=('Memory-safety monitoring on symbolically explored paths (not a whole-program claim): irsym executes the real constructor, initialize_cell_properties and each refinement/compaction '
